@@ -324,6 +324,20 @@ def bounded_binop(it, t, a, b):
         return a.a[0]
     if t is ast.Add and isinstance(a, Term) and a.op == 'mod2x' and isinstance(b, K) and isinstance(b.v, int) and b.v == -(1 << (a.a[1].v - 1)):
         return a.a[0]
+    if t is ast.RShift and isinstance(a, Term) and a.op == '<<' and isinstance(b, K) and isinstance(a.a[1], K) and a.a[1].v == b.v:
+        return a.a[0]               # (u << p) >> p = u
+    if t is ast.RShift and isinstance(a, Term) and a.op == 'mod2' and isinstance(b, K) and b.v == a.a[1].v - 1:
+        # the sign bit of the n-bit image of v
+        rv, n_ = irange(a.a[0]), a.a[1].v
+        if rv is not None and -(1 << (n_ - 1)) <= rv[0] and rv[1] < 0:
+            return K(1)
+        if rv is not None and 0 <= rv[0] and rv[1] < (1 << (n_ - 1)):
+            return K(0)
+        raise Fail(f'sign bit of the {n_}-bit image of {vrepr(a.a[0])[:30]}: its sign is not known')
+    if t is ast.Sub and isinstance(a, Term) and a.op == 'mod2' and isinstance(b, K) and b.v == 1 << a.a[1].v:
+        rv, n_ = irange(a.a[0]), a.a[1].v
+        if rv is not None and -(1 << (n_ - 1)) <= rv[0] and rv[1] < 0:
+            return a.a[0]           # mod2(v, n) - 2^n = v for negative v
     ra, rb = irange(a), irange(b)
     if ra is None or rb is None or isinstance(a, (PInt,)) or isinstance(b, (PInt,)):
         return None
@@ -2296,6 +2310,26 @@ def builtin(it, name, args, kw, n):
             src = bits_value(src.pat, 'bytes')
         if all(isinstance(x, K) for x in (src, order, signed)):
             return K(int.from_bytes(src.v, order.v, signed=bool(signed.v)))
+        if isinstance(src, Term) and src.op == 'tobytes' and isinstance(order, K) and order.v == 'big' and isinstance(signed, K) and not signed.v:
+            # the bytes of a bit container read back as one big-endian number: the unsigned value of its bits (the zero bits tobytes()
+            # appended are a left shift)
+            segs = list(src.a[2].ba.segs)
+            pad = 0
+            if len(segs) >= 2 and segs[-1].kind == 'k' and set(segs[-1].val) <= {'0'} and segs[-1].n < 8:
+                pad = segs[-1].n
+                segs = segs[:-1]
+            u = None
+            if len(segs) == 1 and (sum(s_.n for s_ in segs) + pad) % 8 == 0:
+                s_ = segs[0]
+                u = s_.val if s_.kind == 'u' and s_.val is not None else mod2(s_.val, s_.n) if s_.kind == 'i' and s_.val is not None else None
+            if u is not None:
+                if not pad:
+                    return u
+                sh = Term('<<', u, K(pad))
+                r_ = irange(u)
+                if r_ is not None:
+                    sh.bounds = (r_[0] << pad, r_[1] << pad)
+                return sh
         if isinstance(src, Term) and src.op == 'to_bytes' and isinstance(order, K) and isinstance(signed, K) \
                 and isinstance(src.a[2], K) and isinstance(src.a[3], K) and src.a[2].v == order.v and bool(src.a[3].v) == bool(signed.v):
             return src.a[0]          # from_bytes(to_bytes(v, n, order, signed), order, signed) == v  (to_bytes raises unless v fits)
